@@ -64,7 +64,8 @@ func runSerClosed(c *core.Ctx) {
 	// the escaper: the callee that takes (buf, string) and returns buf
 	var esc *ssa.Function
 	for _, f := range fns {
-		if f != ser && len(f.Params) == 2 && f.Signature.Results().Len() == 1 {
+		// (the escaper may also report an error: `([]byte, error)`)
+		if f != ser && len(f.Params) == 2 && (f.Signature.Results().Len() == 1 || f.Signature.Results().Len() == 2 && types.Identical(f.Signature.Results().At(1).Type(), types.Universe.Lookup("error").Type())) {
 			if bt, ok := f.Params[1].Type().Underlying().(*types.Basic); ok && bt.Kind() == types.String {
 				esc = f
 			}
@@ -116,6 +117,13 @@ func runSerClosed(c *core.Ctx) {
 					okAll = false
 				}
 				if okAll {
+					return
+				}
+			}
+			// the bytes of one decoded rune copied as they stand (`append(dst, s[i:i+size]...)`): SER-2's
+			// rune-branch clause decides when that branch runs
+			if fn == esc {
+				if rb := runeBranchOf(esc); rb.ok && rb.copies[call] {
 					return
 				}
 			}
@@ -525,7 +533,7 @@ func runAddClosed(c *core.Ctx) {
 		ins := a.ins
 		stores := map[*ssa.BasicBlock]bool{}
 		for _, st := range cacheStmts(ins, false) {
-			if an.PathOf(st.mu.Value) == "p:"+ins.Params[len(ins.Params)-1].Name() {
+			if an.PathOf(st.mu.Value) == evParamOf(ins) {
 				stores[st.site.Block()] = true
 			}
 		}
@@ -1070,6 +1078,9 @@ func multiSection(c *core.Ctx, fn *ssa.Function, depth int) (bool, string) {
 		}
 		for _, b := range pts {
 			if a != b && (before(a, b) || (a.Block() != b.Block() && an.Reachable(a.Block(), b.Block(), nil, nil))) {
+				if pc := preCheckAt(c, fn, a, b); pc != nil && pc.why == "" {
+					continue // an accepted read-locked pre-check
+				}
 				return true, c.P.Pos(a.Pos()) + " then " + c.P.Pos(b.Pos())
 			}
 		}
